@@ -202,6 +202,35 @@ def run(R):
             T.to_style(toks, r.choice(gen.STYLES14))
         if i < 2:
             R.sample({"non_neutral": s.decode("utf-8", "replace"), "impl_tokens": [t.decode("latin1") for t in toks] if isinstance(toks, list) else repr(toks)})
+    # (d) acronym-bearing word lists rendered in every visible style: model = implementation on the rendering, its tokens and
+    # its detected style; and where the model (the description of the unchanged code) recognises the rendered name as that
+    # style and parses it back to the same words, the implementation has to as well (the laws, beyond the neutral vocabulary)
+    two_letter = [w for w in ACR_WORDS if len(w) == 2]
+    for i in range(120 if quick else 4000):
+        ws = []
+        for _ in range(r.randint(2, 4)):
+            k = r.randrange(6)
+            ws.append(r.choice(gen.VOCAB) if k < 2 else r.choice(ACR_WORDS).upper() if k == 2 else r.choice(two_letter).upper() if k == 3
+                      else r.choice(ACR_WORDS) if k == 4 else r.choice(gen.VOCAB).upper())
+        bws = [w.encode() for w in ws]
+        for st in gen.VISIBLE:
+            rendered = T.to_style(bws, st)
+            T.bump("acronym_renderings")
+            if not isinstance(rendered, bytes):
+                continue
+            R.case(("acr", tuple(ws), st), nontrivial=True)
+            mdet = M.ask("detect_style", "default", rendered)
+            mdet = (mdet[1] if isinstance(mdet, list) else None) if mdet != "none" else None
+            idet = T.detect(rendered)
+            if mdet == st and idet != st:
+                T.fail.append({"law": "the rendered multi-word name is recognised as that style (acronym-bearing words)", "words": ws, "style": st,
+                               "rendered": rendered.decode("latin1"), "impl_detected": repr(idet)})
+            mt = M.ask("tokens", "default", rendered)
+            mtoks = [core.atom_bytes(x).lower() for x in mt[1]] if isinstance(mt, list) and mt and mt[0] == "some" else None
+            itoks = T.tokens(rendered)
+            if mtoks == [w.lower() for w in bws] and (not isinstance(itoks, list) or [t.lower() for t in itoks] != mtoks):
+                T.fail.append({"law": "roundtrip parse(render ws) = ws (acronym-bearing words)", "words": ws, "style": st,
+                               "rendered": rendered.decode("latin1"), "impl_tokens": repr(itoks)})
     # variant maps on non-neutral terms (model = impl)
     for _ in range(80 if quick else 2000):
         s1, s2 = rand_nonneutral(r).encode(), rand_nonneutral(r).encode()
